@@ -26,6 +26,10 @@ CORPUS = ["", " ", "\t ", "from a | select {b, c}", "x = true.a", "case(", "let 
           "1.", "1.a", "1.e5", "1e", "1e+", "1E-5x", "1__2", "\u00e9 = 1", "a\r\nb", "a\rb", "==x", "a ?? b // c ** d", "a?b", "1days2", "true", "nullx", "true,", "false)", "null..",
           "let\n", "let\t", "let>", "let}", "let]", "let{", "let.", "let..", "into.a", "internal(", "import:", "enum=", "type\\", "module#", "prql$", "func@", "truea", "true(",
           "false.", "null:", "\U0001F600", "a\U0001F600", "\"\U0001F600\" \u00e9", "#\U0001F600\n\u00e9", "\u00e9\u00e9 ..\u00e9", "\u4e2d\u6587 = 1", "x\u00b2", "\u00b2", "\u0663",
+          "1.7976931348623158e308", "1.7976931348623159e308", "17976931348623158" + "0" * 292, "17976931348623159" + "0" * 292, "1" + "0" * 400, "0e999", "0.0e999999999999999999",
+          "1e309 a", "a\n1e999", "[1e400]", "1_0e3_0", "179769313486231580793728971405303415079934132710037826936173778980444968292764750946649017977587207096330286416692887910946555547851940402630657488671505820681908902000708383676273854845817711531764475730270069855571366959622842914819860834936475292719074168444365510704342711559699508093042880177904174497791.99",
+          "179769313486231580793728971405303415079934132710037826936173778980444968292764750946649017977587207096330286416692887910946555547851940402630657488671505820681908902000708383676273854845817711531764475730270069855571366959622842914819860834936475292719074168444365510704342711559699508093042880177904174497792",
+          "9223372036854775807days", "9_223_372_036_854_775_808years", "99999999999999999999hours(",
           "a\u0663", "$\u0663", "a\u00a0b", "a\u2028b", "\u3000", "a\x0bb", "a\x0c", "-1", "a-b", "a - b", "[1, 2]", "{a=1}", "(a)", "a:b", "a.b.c", "f x y", "s\"{a} b\" f'c'",
           "@{a}", "@ 1", "1 .. 2", "1.. 2", "1 ..2", "a..", "..a", "a\t..\tb", "a \n b", " a", "a ", " a ", "\ta\t", "a\\b", "\\", "a\n\\", "~", "~=", "?", "&", "&&", "||", "|", "&&&",
           "|||", "&&)", "||}", "let let", "letx", "let1", "let_", "_let", "_", "__a1", "a\u0301", "\u0301"]
@@ -489,9 +493,6 @@ def impl_interp(ans):
     import re
     if "err" in ans:
         return ("err",)
-    if "panic" in ans and "error_message.rs" in (ans["panic"].get("loc") or "") and "out of bounds of the source" in (ans["panic"].get("msg") or ""):
-        # the parser did reject the input; rendering the error then trips C13's recorded byte-vs-character span assert (non-ASCII source)
-        return ("err", "panicked while rendering the error (C13)")
     if "ok" not in ans:
         return ("other", json.dumps(ans)[:200])
     st = ans["ok"].get("stmts", [])
